@@ -44,9 +44,10 @@ def _pos_forms(p, last):
     if isinstance(p, tuple):
         return [[x] for x in p[1]]
     if p == "n":
-        return [["NUM"], ["10K"]]
+        return [["NUM"], ["10K"], ["1k"], ["2m"], ["3G"], ["0"], ["007"]]
     if p == "s":
-        return [["STR"], ["ML"]] if last else [["STR"]]
+        return ([["STR"], ["ML"], ["text:\n..x\n."], ["text: #c\nabc\n."], ["text:\n\n."], ["text:\n."], ['"a\\"b\\\\"'], ['""']]
+                if last else [["STR"]])
     return [["STR"], ["LIST1"], ["LIST2"]]
 
 
@@ -55,7 +56,7 @@ def _tag_syms(tag, spec):
     if ptype is None:
         return [[tag]]
     if values:
-        return [[tag, values[0]], [tag, values[-1]]]
+        return [[tag, v] for v in values]
     if ptype == "n":
         return [[tag, "NUM"]]
     if ptype == "s":
